@@ -28,16 +28,27 @@ func checkC06(c AxisCase) (bool, *Violation) {
 	if v != nil {
 		return false, v
 	}
-	m := &c.D.Mappings[0]
 	rx := NewReceiver()
 	states := map[string]*c06axisState{}
 	nontrivial := false
 	base := c.D.Channel - 1
+	curMap := -1
 	for i := range w.Steps {
 		ws := &w.Steps[i]
 		if ws.Step.T != "abs" {
 			continue
 		}
+		// the deadzone (and everything else) is the one of the mapping that is active now; the mappings of one case differ in
+		// their deadzones only, so the receiver's view stays comparable across a switch
+		if ws.Pre.Mapping != curMap {
+			if curMap >= 0 {
+				classify("axis moved after a mapping switch to other deadzones")
+				nontrivial = true
+			}
+			curMap = ws.Pre.Mapping
+			states = map[string]*c06axisState{}
+		}
+		m := &c.D.Mappings[curMap]
 		a := axisByCode(m, ws.Step.Sub, ws.Step.Code)
 		if a == nil {
 			continue
@@ -547,15 +558,23 @@ func checkC08(c AxisCase) (bool, *Violation) {
 		} else {
 			// ambiguous threshold position: resynchronise the model from the wire
 			classify("ambiguous threshold position")
-			for k := 0; k < 2; k++ {
-				hn, _ := expectedPitch(k)
-				for _, on := range ons {
-					if int(on[0]&0x0f) == hn.Ch && int(on[1]) == hn.Pitch && notes[k] != nil {
+			e0, _ := expectedPitch(0)
+			e1, _ := expectedPitch(1)
+			same := func(a *heldNote, b heldNote, has bool) bool { return a != nil && has && *a == b }
+			if (notes[0] != nil && notes[1] != nil && e0 == e1) || same(d[0].sent, e1, notes[1] != nil) || same(d[1].sent, e0, notes[0] != nil) ||
+				(d[0].sent != nil && d[1].sent != nil && *d[0].sent == *d[1].sent) {
+				// both directions meet on one channel/pitch (through a transposition change in between): the messages of
+				// this step cannot be attributed to a direction, and whether the threshold was crossed is not decidable here
+				classify("ambiguous threshold position with both directions on one pitch: rest of the case not asserted")
+				return nontrivial, nil
+			}
+			for _, msg := range ws.Res.Out { // in wire order
+				for k := 0; k < 2; k++ {
+					hn, _ := expectedPitch(k)
+					switch {
+					case isNoteOn(msg) && notes[k] != nil && int(msg[0]&0x0f) == hn.Ch && int(msg[1]) == hn.Pitch:
 						d[k] = c08dir{on: true, sent: &heldNote{hn.Ch, hn.Pitch}}
-					}
-				}
-				for _, off := range offs {
-					if d[k].sent != nil && int(off[0]&0x0f) == d[k].sent.Ch && int(off[1]) == d[k].sent.Pitch {
+					case isNoteOff(msg) && d[k].sent != nil && int(msg[0]&0x0f) == d[k].sent.Ch && int(msg[1]) == d[k].sent.Pitch:
 						d[k] = c08dir{}
 					}
 				}
